@@ -81,3 +81,6 @@ pub use crate::util::metadata::side_metadata::verif_hooks_layout as side_layout;
 
 /// `util::metadata::vo_bit` crate-visible lookups (valid-object bit, interior pointers).
 pub use crate::util::metadata::vo_bit::verif_hooks as vo_bit;
+
+/// `policy::compressor::forwarding`: the offset-vector computation over a region prefix.
+pub use crate::policy::compressor::forwarding::verif_hooks as compressor_fwd;
